@@ -163,7 +163,21 @@ scenario Main():
                 wait
 """
 
-TEMPLATES = {"top": TOP, "sub": SUB, "ctop": COMP, "csub": COMP}
+# placement (d): the SAME statement executed twice in one compose block (a loop): every execution starts an
+# obligation of its own, judged from its step to the end of the scenario
+REP = """from vlog_c11 import tv, tail
+scenario Main():
+    setup:
+        ego = new Object
+    compose:
+        for _r in range(2):
+            require {phi}
+            wait
+        for _j in range(tail() - 2):
+            wait
+"""
+
+TEMPLATES = {"top": TOP, "sub": SUB, "ctop": COMP, "csub": COMP, "rep": REP}
 
 _helper_ready = False
 
@@ -504,6 +518,49 @@ def check_formula(item):
         else:
             run_all(comp, "ctop", m)
             run_all(comp, "csub", m)
+        # placement (d): the statement executed at steps 0 and 1 of a compose block that finishes after L steps;
+        # accepted iff the whole trace AND its suffix from step 1 satisfy the formula (Temporal.tla's verdicts of
+        # the two traces); when rejected, the step of the rejection is not compared.  Formulas that meet the
+        # rv_ltl `until`-at-an-offset finding are left to the other placements.
+        if not forminfo["uao"]:
+            try:
+                rep = compile_(REP, texts[m])
+            except Exception as e:
+                finding("parse", f"loop program for `{texts[m]}` does not compile: {type(e).__name__}: {e}"[:300],
+                        None, {"text": texts[m], "place": "rep"})
+            else:
+                out["placements"].append(["rep", m])
+                sat = {tuple(c["tr"]): c["sat"] for c in base}
+                for idx, tr in enumerate(c["tr"] for c in base):
+                    L = len(tr)
+                    if L != 3 or tuple(tr[1:]) not in sat or (item.get("thin") and (idx + rot) % 2):
+                        continue
+                    want = bool(sat[tuple(tr)]) and bool(sat[tuple(tr[1:])])
+                    cf = {"k": 0, "s": 0, "post": 0, "mode": "cf"}
+                    signal.setitimer(signal.ITIMER_VIRTUAL, 30)
+                    try:
+                        o = run_one(V, rep, "ctop", tr, cf)
+                        if (o[0] == "acc") != want or o[0] not in ("acc", "rej"):
+                            o2 = run_one(V, rep, "ctop", tr, cf)
+                            if o2 != o:
+                                o = ["flaky", o, o2]
+                    except Timeout:
+                        o = ["timeout"]
+                    finally:
+                        signal.setitimer(signal.ITIMER_VIRTUAL, 0)
+                    out["sims"] += 1
+                    out["by_config"]["rep/k0+1/cf"] = out["by_config"].get("rep/k0+1/cf", 0) + 1
+                    if o[0] in ("acc", "rej") and (o[0] == "acc") == want:
+                        out["agree"] += 1
+                        continue
+                    finding(
+                        "verdict",
+                        f"rep/{m} `{texts[m]}` executed at steps 0 and 1 of one compose block, trace {tr}: observed {o}, "
+                        f"spec: sat(trace)={sat[tuple(tr)]} sat(suffix from step 1)={sat[tuple(tr[1:])]}",
+                        None,
+                        {"place": "rep", "text": texts[m], "trace": tr, "observed": o,
+                         "expected_accept": want, "reads": list(V.READS)[:40]},
+                    )
     return out
 
 
@@ -685,7 +742,10 @@ def replay(path):
         return 0
     V = helper()
     sc = scenic.scenarioFromString(d["program"])
-    print("observed now:", run_one(V, sc, d["place"], d["trace"], d["config"]))
+    place, cf = d["place"], d.get("config")
+    if place == "rep":
+        place, cf = "ctop", {"k": 0, "s": 0, "post": 0, "mode": "cf"}
+    print("observed now:", run_one(V, sc, place, d["trace"], cf))
     return 0
 
 
